@@ -226,7 +226,18 @@ func (h *dnsCryptHandler) ServeDNS(rw dnscrypt.ResponseWriter, r *dns.Msg) (err 
 
 	network := NetworkFromAddr(rw.LocalAddr())
 	msg := nrw.Msg()
-	normalize(network, ProtoDNSCrypt, r, msg, dns.MaxMsgSize)
+	normalize(network, ProtoDNSCrypt, r, msg, dnsCryptMaxMsgSize)
+	if network == NetworkTCP {
+		// normalize only applies the limit to UDP.
+		truncate(msg, dnsCryptMaxMsgSize)
+	}
 
 	return rw.WriteMsg(msg)
 }
+
+// dnsCryptMaxMsgSize is the maximum size of a DNS message that still fits into
+// a UDP datagram or into a TCP frame with a 16-bit length prefix after the
+// DNSCrypt padding and encryption, which add up to 64 bytes of padding as well
+// as the headers, have been applied.  Larger messages were truncated by the
+// DNSCrypt library without removing the answers, or could not be sent at all.
+const dnsCryptMaxMsgSize = dns.MaxMsgSize - 256
